@@ -72,18 +72,18 @@ def _validate_valid_identifiers(nodes: dict[str, HyperNode]) -> None:
 
     for node in nodes.values():
         # GraphNode uses graph name validation (allows hyphens, no path separators);
-        # with_name() does not re-check what the GraphNode constructor rejects
+        # with_name() does not re-check what the GraphNode constructor rejects.
+        # Its output names (renamable with with_outputs) are checked like any other.
         if isinstance(node, GraphNode):
             _validate_graph_name(node.name)
-            continue
-        if not node.name.isidentifier():
+        elif not node.name.isidentifier():
             raise GraphConfigError(
                 f"Invalid node name: '{node.name}'\n\n"
                 f"  -> Names must be valid Python identifiers\n\n"
                 f"How to fix:\n"
                 f"  Use letters, numbers, underscores only"
             )
-        if keyword.iskeyword(node.name):
+        elif keyword.iskeyword(node.name):
             raise GraphConfigError(
                 f"Invalid node name: '{node.name}'\n\n"
                 f"  -> '{node.name}' is a Python keyword and cannot be used\n\n"
